@@ -1,8 +1,10 @@
 package props
 
 import (
+	"bytes"
 	"errors"
 	"fmt"
+	"os"
 	"strconv"
 	"strings"
 
@@ -39,6 +41,11 @@ func (C17) Gen(r *core.Rng, tier string, emit func(string)) {
 		ba := assembleArchive(root, ts, ic, baseHeader(), []byte("{}"))
 		dl := ba.dirsLine()
 		emit("iter - " + compName(ic) + " " + dl)
+		if np := strings.Count(dl, ":0 ") + strings.Count(dl, ":0\n"); len(ba.dirs) > 1 && i%3 == 0 {
+			_ = np
+			// the callers of the enumeration (cluster, verify, makesync) on a file with an unfetchable leaf
+			emit(fmt.Sprintf("callers %s %s", compName(ic), dl))
+		}
 		positions := len(ba.dirs)
 		if positions > 12 {
 			// all positions for small trees, sampled for large ones
@@ -54,8 +61,62 @@ func (C17) Gen(r *core.Rng, tier string, emit func(string)) {
 	}
 }
 
+// runCallers: the real users of the enumeration on a local file none of whose leaf directories can be fetched (the
+// header places the leaf section beyond 2^63: no read of the file can succeed there).  Each must report the
+// failure; cluster must leave the archive as it was.
+func runCallers(t []string) string {
+	ic := compOf(t[1])
+	dirs, _, ok := parseDirsLine(t[2:])
+	if !ok || len(dirs) < 2 {
+		return "bad-case"
+	}
+	var dataLen uint64
+	for d := range dirs {
+		for _, en := range dirs[d].entries {
+			if en.RunLength > 0 && en.Offset+uint64(en.Length) > dataLen {
+				dataLen = en.Offset + uint64(en.Length)
+			}
+		}
+	}
+	ab, h := archiveFromParsed(ic, make([]byte, dataLen), dirs, baseHeader(), []byte("{}"))
+	h.LeafDirectoryOffset = 1 << 63
+	copy(ab, pmtiles.SerializeHeader(h))
+	path := scratchFile(".pmtiles")
+	defer os.Remove(path)
+	os.WriteFile(path, ab, 0o644)
+	res := "cluster="
+	if err := pmtiles.Cluster(discardLogger, path, true); err != nil {
+		res += "err"
+	} else {
+		res += "ok"
+	}
+	if after, _ := os.ReadFile(path); bytes.Equal(after, ab) {
+		res += "-unchanged"
+	} else {
+		res += "-CHANGED"
+	}
+	os.WriteFile(path, ab, 0o644)
+	if err := pmtiles.Verify(discardLogger, path); err != nil {
+		res += " verify=err"
+	} else {
+		res += " verify=ok"
+	}
+	h.Clustered = true
+	copy(ab, pmtiles.SerializeHeader(h))
+	os.WriteFile(path, ab, 0o644)
+	defer os.Remove(path + ".sync")
+	ms := runMakesync(false, path, 1)
+	if strings.HasPrefix(ms, "err:") {
+		ms = "err" // which of its checks fires first (clustering of the root's own tile entries, or the unreadable leaf) is not the point
+	}
+	return res + " makesync=" + ms
+}
+
 func (C17) RunGo(line string) string {
 	t := strings.Fields(line)
+	if t[0] == "callers" {
+		return runCallers(t)
+	}
 	if t[0] != "iter" {
 		return "bad-case"
 	}
@@ -98,12 +159,18 @@ func (C17) RunGo(line string) string {
 
 func (C17) NonTrivial(line string) bool {
 	t := strings.Fields(line)
+	if t[0] == "callers" {
+		return true
+	}
 	nd, _ := strconv.Atoi(t[3])
 	return nd >= 2
 }
 
 func (C17) Branch(line, goOut string) string {
 	t := strings.Fields(line)
+	if t[0] == "callers" {
+		return "callers " + t[1]
+	}
 	f := "fault"
 	if t[1] == "-" {
 		f = "nofault"
@@ -116,6 +183,12 @@ func (C17) Branch(line, goOut string) string {
 // Oracle: independent flatten; "error iff a fetch failed".
 func (C17) Oracle(line, goOut string) string {
 	t := strings.Fields(line)
+	if t[0] == "callers" {
+		if goOut != "cluster=err-unchanged verify=err makesync=err" {
+			return "a leaf directory of the archive cannot be fetched, but a user of the enumeration did not report it (or cluster rewrote the archive): " + goOut
+		}
+		return ""
+	}
 	dirs, _, ok := parseDirsLine(t[3:])
 	if !ok {
 		return ""
